@@ -36,16 +36,24 @@ func checkC08(ctx *Ctx) {
 		"and under noeviction a write is refused exactly while usage is at or above the limit and nothing is ever removed. distinct_nontrivial = distinct (policy, event/assertion class, candidate-set class) observed")
 	ctx.Assume("recency stamps in the heaps are real time (milliseconds): the harness spaces accesses by 3 ms and awaits the asynchronous cache-update goroutines before the next access",
 		"frequency = number of client commands (SET, GET, EXPIREAT) that touched the key since it entered the cache; under a volatile policy a key enters the cache when it gets a deadline")
-	if ctx.Fork(7, "", ctx.Watchdog()) {
+	if ctx.Fork(14, "", ctx.Watchdog()) {
 		return
 	}
 	quietLogs()
-	n := ctx.N(40, 200)
-	for pi, pol := range c08Policies {
-		if !ctx.Mine(pi) {
-			continue
+	for bi, pol := range []string{"volatile-lfu", "volatile-lru", "allkeys-lfu", "allkeys-lru"} {
+		for rep := 0; rep < ctx.N(2, 8); rep++ {
+			if ctx.Mine(bi*3 + rep) {
+				ctx.SetCurrent(fmt.Sprintf("C08 big batch %s %d", pol, rep))
+				c08BigBatch(ctx, pol, rep)
+			}
 		}
+	}
+	n := ctx.N(100, 400)
+	for pi, pol := range c08Policies {
 		for h := 0; h < n; h++ {
+			if !ctx.Mine(pi*2 + h%2) {
+				continue
+			}
 			ctx.SetCurrent(fmt.Sprintf("C08 policy %s history %d seed %d", pol, h, ctx.Seed))
 			if !c08History(ctx, pol, h) {
 				break
@@ -222,13 +230,15 @@ func c08History(ctx *Ctx, pol string, h int) bool {
 			_ = in.S.SelectDB(db)
 			trace = append(trace, fmt.Sprintf("SelectDB %d", db))
 		case x == 11 && r.Intn(3) == 0:
-			in.Do("FLUSHDB")
+			all := r.Intn(3) == 0
+			argv = []string{map[bool]string{false: "FLUSHDB", true: "FLUSHALL"}[all]}
+			in.Do(argv...)
 			for i, st := range live {
-				if st.db == db {
+				if st.db == db || all {
 					delete(live, i)
 				}
 			}
-			trace = append(trace, fmt.Sprintf("[db%d] FLUSHDB", db))
+			trace = append(trace, fmt.Sprintf("[db%d] %s", db, argv[0]))
 		}
 		if !quiesce() {
 			return true
@@ -259,6 +269,12 @@ func c08History(ctx *Ctx, pol string, h int) bool {
 						continue
 					}
 					if strings.HasPrefix(pol, "volatile") && !o.volatile {
+						continue
+					}
+					if strings.HasPrefix(pol, "volatile") && oid == id {
+						// the key this very command is writing: the eviction its setValues step starts may run
+						// before its setExpiry step has given the key its deadline, and until then the key is
+						// not a candidate under a volatile policy
 						continue
 					}
 					// what counts as one "use" is the server's business within +-1 (a SET with an expiry option may
@@ -316,6 +332,11 @@ func c08History(ctx *Ctx, pol string, h int) bool {
 		used := uint64(memUsed(in))
 		if strings.HasPrefix(pol, "allkeys") && used >= limit && countKeysDump(d) > 1 {
 			return fail("not_enforced", fmt.Sprintf("after %s usage is %d, at or above the limit %d, with %d keys stored and an all-keys policy", Step{Argv: argv}.String(), used, limit, countKeysDump(d)))
+		}
+		// the usage the limit is compared with is the usage of the keys stored: every key of these histories has
+		// the same shape, so it is the per-key figure times the number of keys
+		if want := uint64(per) * uint64(countKeysDump(d)); used != want {
+			return fail("usage", fmt.Sprintf("after %s the usage figure that the limit is compared with is %d, but %d keys of %d bytes each are stored (%d)", Step{Argv: argv}.String(), int64(used), countKeysDump(d), per, want))
 		}
 		// survivors are unchanged, nothing the harness never wrote exists, and unknown disappearances are evictions
 		for dbi, keys := range d.DBs {
@@ -416,4 +437,68 @@ func countKeysDump(d sugardb.VerifDumpResult) int {
 		n += len(db)
 	}
 	return n
+}
+
+// c08BigBatch: the bookkeeping of a large multi-key read (MGET of thousands of keys: the asynchronous cache
+// update that follows it touches every one of them) overlaps a PERSIST of one of those keys and a DEL of
+// another, issued right behind it. At the next quiescent point the eviction heaps must hold no key that is
+// not stored and, under a volatile policy, no key without a deadline - otherwise the next eviction removes a
+// key that is not a candidate, or counts a key that is gone.
+func c08BigBatch(ctx *Ctx, pol string, i int) {
+	ac := &asyncCounter{}
+	setHook(ac.hook)
+	defer setHook(nil)
+	in, err := NewInst(InstOpts{MaxMemory: 1 << 40, Policy: pol, EvictionInterval: time.Hour})
+	if err != nil {
+		ctx.Broken(err.Error())
+		return
+	}
+	defer func() {
+		ac.wait(20 * time.Second)
+		time.Sleep(5 * time.Millisecond)
+		in.Close()
+	}()
+	const n = 3000
+	keys := make([]string, n)
+	for k := range keys {
+		keys[k] = fmt.Sprintf("bb%04d", k)
+		in.Do("SET", keys[k], "v", "EXAT", "1999999999")
+	}
+	if !ac.wait(60 * time.Second) {
+		ctx.Inconclusive("big-batch: async cache goroutines did not quiesce")
+		return
+	}
+	for attempt := 0; attempt < 3; attempt++ {
+		victim, gone := keys[n-1-2*attempt], keys[n-2-2*attempt]
+		// the victim and the key to delete come last, so that the batch's bookkeeping reaches them late
+		batch := append([]string{"MGET"}, keys[:n-6]...)
+		batch = append(batch, gone, victim)
+		in.Do(batch...)
+		time.Sleep(time.Duration(1+i%3) * time.Millisecond)
+		in.Do("PERSIST", victim)
+		in.Do("DEL", gone)
+		if !ac.wait(60 * time.Second) {
+			ctx.Inconclusive("big-batch: async cache goroutines did not quiesce")
+			return
+		}
+		d := in.S.VerifDump()
+		ctx.Eval(1)
+		ctx.Class(pol + "|big-batch|bookkeeping")
+		for dbi, stored := range d.DBs {
+			for _, hk := range append(append([]string{}, d.LRU[dbi]...), d.LFU[dbi]...) {
+				v, ok := stored[hk]
+				what := ""
+				if !ok {
+					what = fmt.Sprintf("holds %q, which is not stored (it was deleted right after a %d-key MGET that named it)", hk, n-4)
+				} else if strings.HasPrefix(pol, "volatile") && v.ExpireAt == 0 {
+					what = fmt.Sprintf("holds %q, which has no deadline (it was persisted right after a %d-key MGET that named it): the next eviction may remove a key that is not a candidate", hk, n-4)
+				}
+				if what != "" {
+					ctx.Violate(Violation{Kind: "bookkeeping", Lane: "big-batch-" + pol, What: fmt.Sprintf("policy %s: at rest the eviction heap of database %d %s", pol, dbi, what),
+						Case: map[string]interface{}{"policy": pol, "keys": n, "attempt": attempt}, Key: "c08|big-batch|" + pol})
+					return
+				}
+			}
+		}
+	}
 }
